@@ -13,7 +13,16 @@ attribute, and emits
                   TABLE line is informational),
   * `signatures`  one row per `#[async_generic(async_signature(..))]`: the tokens of the
                   synchronous parameter list and of the asynchronous one,
-  * `functions`   the number of attributed functions per file (inventory).
+  * `functions`   every attributed function as (file, name) + the count; `attrScanCount` is the
+                  number of `#[async_generic` attribute lines found by an independent raw-text
+                  scan (no lexer); every `async_generic` identifier of the token stream must be
+                  either that attribute or the `use async_generic::async_generic` import,
+  * `handPairs`   every hand-written `fn X_async` with a sibling `fn X` in the same scope (these
+                  are NOT macro expansions: the macro never leaves an `_async` name in the
+                  source), with the token lists of both bodies,
+  * `crossScope`  every `fn X_async` whose `fn X` lives in another scope of the same file (the
+                  two members of a sync/async trait pair),
+  * `asyncOrphans` every `fn X_async` without any `fn X` in its file.
 
 Fails closed (exit 1): unbalanced delimiters, a `_sync`/`_async` token that is not of the form
 `if _sync {` … `} else {` … `}`, an `else if` after a `_sync` arm, a site without else-arm, a
@@ -162,7 +171,7 @@ def test_regions(toks, rel):
     return out
 
 
-def find_sites(toks, lo, hi, rel, fn, is_test, sites):
+def find_sites(toks, lo, hi, rel, fn, is_test, sites, depth=0):
     """Collect every `if _sync {A} else {B}` in toks[lo:hi] (nested ones included)."""
     i = lo
     while i < hi:
@@ -181,12 +190,12 @@ def find_sites(toks, lo, hi, rel, fn, is_test, sites):
             b0 = a1 + 2
             b1 = match_group(toks, b0, rel)
             sites.append({
-                "file": rel, "line": toks[i][1], "fn": fn, "test": is_test,
+                "file": rel, "line": toks[i][1], "fn": fn, "test": is_test, "depth": depth,
                 "a": (a0 + 1, a1), "b": (b0 + 1, b1),
             })
             # nested sites inside either arm
-            find_sites(toks, a0 + 1, a1, rel, fn, is_test, sites)
-            find_sites(toks, b0 + 1, b1, rel, fn, is_test, sites)
+            find_sites(toks, a0 + 1, a1, rel, fn, is_test, sites, depth + 1)
+            find_sites(toks, b0 + 1, b1, rel, fn, is_test, sites, depth + 1)
             i = b1 + 1
         else:
             i += 1
@@ -314,6 +323,89 @@ def settings_side_condition():
     return sorted(reads), sorted(writes)
 
 
+def scope_ids(toks):
+    """for every token the index of the innermost enclosing `{` (-1 at file level)"""
+    stack, out = [-1], []
+    for k, (t, _) in enumerate(toks):
+        if t == "}" and len(stack) > 1:
+            stack.pop()
+        out.append(stack[-1])
+        if t == "{":
+            stack.append(k)
+    return out
+
+
+def fn_item(toks, k, rel):
+    """toks[k] == 'fn'. Returns (has_async_keyword, body_range_or_None)."""
+    has_async, j = False, k - 1
+    while j >= 0 and (toks[j][0] in ("async", "unsafe", "const", "extern") or toks[j][0].startswith('"')):
+        has_async = has_async or toks[j][0] == "async"
+        j -= 1
+    j = k + 2
+    if toks[j][0] == "<":
+        depth = 0
+        while True:
+            if toks[j][0] == "<":
+                depth += 1
+            elif toks[j][0] == ">" and toks[j - 1][0] != "-":
+                depth -= 1
+                if depth == 0:
+                    j += 1
+                    break
+            j += 1
+    if toks[j][0] != "(":
+        fail(f"{rel}:{toks[k][1]}: parameter list of {toks[k + 1][0]} not found")
+    b = match_group(toks, j, rel) + 1
+    while toks[b][0] not in ("{", ";"):
+        if toks[b][0] in ("(", "["):
+            b = match_group(toks, b, rel) + 1
+        else:
+            b += 1
+    if toks[b][0] == ";":
+        return has_async, None
+    return has_async, (b + 1, match_group(toks, b, rel))
+
+
+def hand_written(toks, rel, in_test, hand, cross, orphans):
+    """Every `fn X_async` of the file (all of them are hand-written: the macro generates its
+    `_async` functions at compile time and leaves no such name in the source)."""
+    scope = scope_ids(toks)
+    fns = {}
+    for k in range(len(toks) - 1):
+        if toks[k][0] == "fn" and IDENT.fullmatch(toks[k + 1][0]):
+            fns.setdefault(toks[k + 1][0], []).append(k)
+    path_test = "tests/" in rel or rel.startswith("tests")
+    ordn = {}
+    for name in sorted(fns):
+        if not (name.endswith("_async") and len(name) > 6):
+            continue
+        stem = name[:-6]
+        for k in fns[name]:
+            is_test = path_test or in_test(k)
+            sib = [j for j in fns.get(stem, []) if scope[j] == scope[k]]
+            if len(sib) > 1:
+                fail(f"{rel}:{toks[k][1]}: {name} has {len(sib)} siblings named {stem} in one scope")
+            if sib:
+                a_kw, a_body = fn_item(toks, k, rel)
+                s_kw, s_body = fn_item(toks, sib[0], rel)
+                if s_kw and not is_test:
+                    fail(f"{rel}:{toks[sib[0]][1]}: the sibling {stem} of {name} is itself an async fn")
+                idx = ordn.get(stem, 0)
+                ordn[stem] = idx + 1
+                body = lambda r: [] if (r is None or is_test) else [t[0] for t in toks[r[0]:r[1]]]
+                hand.append({"file": rel, "fn": stem, "idx": idx, "line": toks[k][1], "test": is_test,
+                             "asyncKw": a_kw, "hasBody": a_body is not None and s_body is not None,
+                             "declOnly": a_body is None and s_body is None,
+                             "sync": body(s_body), "async": body(a_body)})
+            elif fns.get(stem):
+                cross.append({"file": rel, "fn": stem, "line": toks[k][1], "test": is_test})
+            else:
+                orphans.append({"file": rel, "fn": stem, "line": toks[k][1], "test": is_test})
+
+
+RAW_ATTR = re.compile(r"^[ \t]*#[ \t]*\[[ \t]*async_generic\b", re.M)
+
+
 def lean_str(s):
     return '"' + s.replace("\\", "\\\\").replace('"', '\\"').replace("\n", "\\n").replace("\r", "\\r").replace("\t", "\\t") + '"'
 
@@ -351,15 +443,30 @@ def main():
     files.sort()
     h = hashlib.sha256()
     sites_out, sigs_out, fn_count = [], [], {}
+    fn_rows, hand, cross, orphans = [], [], [], []
     total_sync_tokens = 0
+    raw_attr_count = 0
     for path in files:
         text = open(path, errors="replace").read()
-        if "_sync" not in text and "async_generic" not in text:
+        if "_sync" not in text and "async_generic" not in text and "_async" not in text:
             continue
         rel = os.path.relpath(path, SRC)
         toks = tokenize(text, rel)
         tests = test_regions(toks, rel)
         in_test = lambda k: any(a <= k <= b for a, b in tests)
+        # independent inventory: attribute lines of the raw text (no lexer involved)
+        raw_attr_count += len(RAW_ATTR.findall(text))
+        # every `async_generic` identifier is the attribute or the import of the macro
+        for k, (t, ln) in enumerate(toks):
+            if t == "async_generic":
+                prev = [x[0] for x in toks[max(0, k - 4):k]]
+                nxt = [x[0] for x in toks[k + 1:k + 4]]
+                is_attr = prev[-2:] == ["#", "["]
+                is_use = (prev[-1:] == ["use"] and nxt == [":", ":", "async_generic"]) or \
+                         (prev[-4:] == ["use", "async_generic", ":", ":"] and nxt[:1] == [";"])
+                if not (is_attr or is_use):
+                    fail(f"{rel}:{ln}: `async_generic` used in a form this translator does not know")
+        hand_written(toks, rel, in_test, hand, cross, orphans)
         covered = []  # token ranges of attributed function bodies
         i = 0
         while i < len(toks):
@@ -415,6 +522,8 @@ def main():
                 covered.append((b, be))
                 is_test = in_test(i)
                 fn_count[rel] = fn_count.get(rel, 0) + 1
+                fn_rows.append({"file": rel, "fn": fn, "test": is_test, "line": toks[i][1]})
+                h.update(("fn:" + rel + ":" + fn).encode())
                 if async_sig is not None:
                     # drop trailing commas for comparison
                     while sync_sig and sync_sig[-1] == ",":
@@ -447,6 +556,16 @@ def main():
     if not sites_out:
         fail("no `if _sync` site found")
 
+    if raw_attr_count != sum(fn_count.values()):
+        fail(f"{sum(fn_count.values())} attributed functions parsed but the raw-text scan sees {raw_attr_count} `#[async_generic` lines")
+    for r in hand:
+        h.update(("hand:" + r["file"] + ":" + r["fn"] + " ".join(r["sync"]) + "|" + " ".join(r["async"])).encode())
+    cross_rows = sorted({(c["file"], c["fn"], c["test"]) for c in cross})
+    orphan_rows = sorted({(o["file"], o["fn"], o["test"]) for o in orphans})
+    h.update(("cross:" + repr(cross_rows) + repr(orphan_rows)).encode())
+    hand.sort(key=lambda r: (r["file"], r["fn"], r["idx"]))
+    fn_rows.sort(key=lambda r: (r["file"], r["line"]))
+
     reads, writes = settings_side_condition()
     h.update(("settings:" + ",".join(reads) + "|" + ",".join(writes)).encode())
 
@@ -460,13 +579,24 @@ def main():
 
     def site_row(s):
         return ("  { file := " + lean_str(s["file"]) + f", line := {s['line']}, fn := " + lean_str(s["fn"]) +
-                f", idx := {s['idx']}, test := {'true' if s['test'] else 'false'},\n    syncArm := " + lean_toks(s["sync"]) +
+                f", idx := {s['idx']}, depth := {s['depth']}, test := {'true' if s['test'] else 'false'},\n    syncArm := " + lean_toks(s["sync"]) +
                 ",\n    asyncArm := " + lean_toks(s["async"]) + " }")
 
     def sig_row(s):
         return ("  { file := " + lean_str(s["file"]) + f", line := {s['line']}, fn := " + lean_str(s["fn"]) +
                 f", test := {'true' if s['test'] else 'false'},\n    syncSig := " + lean_toks(s["sync"]) +
                 ",\n    asyncSig := " + lean_toks(s["async"]) + " }")
+
+    def lean_bool(b):
+        return "true" if b else "false"
+
+    def hand_row(r):
+        return ("  { file := " + lean_str(r["file"]) + ", fn := " + lean_str(r["fn"]) + f", idx := {r['idx']}, test := {lean_bool(r['test'])}, " +
+                f"asyncKw := {lean_bool(r['asyncKw'])}, declOnly := {lean_bool(r['declOnly'])}, hasBody := {lean_bool(r['hasBody'])},\n    syncBody := " +
+                lean_toks(r["sync"]) + ",\n    asyncBody := " + lean_toks(r["async"]) + " }")
+
+    def triple_rows(rows):
+        return "[" + (",\n  ".join("(" + lean_str(a) + ", " + lean_str(b) + ", " + lean_bool(c) + ")" for a, b, c in rows)) + "]"
 
     # split the table into chunks so that no single definition is huge
     CH = 12
@@ -480,6 +610,8 @@ GENERATED on every check run by translators/c40_sites.py — do not edit.
 `sites*`: every `if _sync {{A}} else {{B}}` inside an `#[async_generic]` function of sdk/src
 (token lists of both arms, nested sites already reduced to the arm the macro keeps).
 `signatures`: every `async_signature(..)` with the tokens of the sync and async parameter lists.
+`functions` / `attrScanCount`: the inventory of attributed functions, twice (lexer / raw text).
+`handPairs`, `crossScope`, `asyncOrphans`: every hand-written `fn X_async` of sdk/src.
 -/
 namespace C2pa.C40.Gen
 open C2pa.C40
@@ -501,6 +633,19 @@ def adjustedSettingsWrites : List String := {lean_list(writes)}
 
 /-- number of `#[async_generic]` functions found -/
 def functionCount : Nat := {sum(fn_count.values())}
+/-- every `#[async_generic]` function: (file, name, inside test code) -/
+def functions : List (String × String × Bool) := {triple_rows([(r["file"], r["fn"], r["test"]) for r in fn_rows])}
+/-- number of `#[async_generic` attribute lines seen by the raw-text scan (no lexer) -/
+def attrScanCount : Nat := {raw_attr_count}
+
+/-- every hand-written `fn X_async` with a sibling `fn X` in the same scope (bodies of test code omitted) -/
+def handPairs : List HandPair := [
+{(","+chr(10)).join(hand_row(r) for r in hand)}
+]
+/-- `fn X_async` whose `fn X` is in another scope of the same file (sync/async trait pairs): (file, X, test) -/
+def crossScope : List (String × String × Bool) := {triple_rows(cross_rows)}
+/-- `fn X_async` without any `fn X` in its file: (file, X, test) -/
+def asyncOrphans : List (String × String × Bool) := {triple_rows(orphan_rows)}
 /-- number of `_sync` tokens in sdk/src (every one is accounted for by a site) -/
 def syncTokenCount : Nat := {total_sync_tokens}
 
@@ -513,7 +658,10 @@ end C2pa.C40.Gen
     other = [s for s in sites_out if not s["twin"]]
     info = {"table": "C40Sites", "sites": len(sites_out), "twins": len(sites_out) - len(other),
             "other": [f"{s['file']}:{s['line']}:{s['fn']}#{s['idx']}" for s in other],
-            "signatures": len(sigs_out), "functions": sum(fn_count.values()),
+            "signatures": len(sigs_out), "functions": sum(fn_count.values()), "attr_scan": raw_attr_count,
+            "hand_pairs": [f"{r['file']}:{r['fn']}" for r in hand if not r["test"]],
+            "hand_pairs_test": sum(1 for r in hand if r["test"]),
+            "cross_scope": len(cross_rows), "async_orphans": [f"{a}:{b}" for a, b, c in orphan_rows if not c],
             "test_sites": sum(1 for s in sites_out if s["test"]),
             "cose_sign_settings_reads": reads, "adjusted_settings_writes": writes,
             "sha256": h.hexdigest()[:16], "changed": old != text}
